@@ -25,7 +25,7 @@ RULE = (
     "predicted to return a NEW object after a modification or eviction and one to return the SAME "
     "object; distinct by (config, operation list)."
 )
-RULE += ' added since: put_string / put_template over cached URIs and get_template of put URIs, has_template vs get_template agreement, postcondition on every put.'
+RULE += ' added since: put_string / put_template over cached URIs and get_template of put URIs, has_template vs get_template agreement, postcondition on every put. has_template judged on its own (answers False, never raises a lookup error).'
 ASSUMPTIONS = [
     "virtual clock: mako.codegen.time, mako.util.timeit and the mtime of written module files are "
     "driven by the harness (whole-second steps); sources get their mtime with os.utime",
